@@ -46,7 +46,10 @@ def parse_real(html):
             d[a.group(1)] = a.group(2)
         if "data-m" in d:
             ids = frozenset(k[len("data-djc-id-") :] for k in d if k.startswith("data-djc-id-"))
-            elems.append((d["data-m"], ids, d.get("data-echo")))
+            echo = d.get("data-echo")
+            if echo is not None and echo.startswith("data-djc-id-"):
+                echo = echo[len("data-djc-id-") :]  # the echo spelled as the marker attribute's name
+            elems.append((d["data-m"], ids, echo))
     return elems
 
 
@@ -59,7 +62,7 @@ def model_elems(tree):
             if isinstance(p, str):
                 continue
             if p[0] == "E":
-                out.append((p[2], frozenset(tops), p[4]))
+                out.append((p[2], frozenset(tops), p[4][1] if isinstance(p[4], tuple) and p[4][0] == "mk" else p[4]))
                 walk(p[3], set())
             elif p[0] == "I":
                 walk(p[3], tops | {p[1]})
